@@ -27,8 +27,6 @@ def build_case(cid, rng, dynamic, force_async=False, no_send=False, probes=False
     t = tg.random_trait(rng, "Tr", dyn_safe=True, allow_async=want_async, with_async_trait=(dynamic and want_async), allow_generic_trait=False)
     t.supers = [s for s in t.supers if "Sized" not in s]
     t.const_pos = None
-    for m in t.methods:
-        m.typed_recv = False      # K12 (recorded finding): typed receivers are not converted for delegation-target traits
     if not want_async:
         for m in t.methods:
             m.is_async = False
